@@ -77,3 +77,24 @@ def ring_stereo_family():
             'C[C@H](O)CC[C@H](O)C', 'C[C@H](O)CC[C@@H](O)C', 'C[C@H](O)[C@H](O)C', 'C[C@H](O)[C@@H](O)C', 'C[C@H](N)C(=O)O', 'CC=C=CC',
             'C[C@H](O)CC.C[C@@H](O)CC', 'F/C=C/F', 'F/C=C\\F', 'C[C@]12CC[C@H](CC1)C2']
     return out
+
+
+def interdependent_family():
+    """stereo elements that are stereogenic only because other elements are labelled (pseudo-asymmetric centres, double bonds between labelled centres),
+    every label combination written out"""
+    out = []
+    marks = ('@', '@@')
+    for a in marks:
+        for b in marks:
+            for c in marks:
+                out.append('C[C%sH](O)[C%sH](F)[C%sH](O)C' % (a, b, c))
+                out.append('C[C%sH](O)C[C%sH](F)C[C%sH](O)C' % (a, b, c))
+    for a in marks:
+        for x, y in (('/', '/'), ('/', '\\'), ('\\', '\\')):
+            out.append('C/C=C%s[C%sH](F)%sC=C/C' % (x, a, y))
+    for a in marks:
+        for b in marks:
+            for x in ('/', '\\'):
+                out.append('C[C%sH](O)/C=C%s[C%sH](O)C' % (a, x, b))
+                out.append('C[C%sH](O)C(=C)[C%sH](O)C' % (a, b))
+    return sorted(set(out))
